@@ -745,7 +745,7 @@ def _add_construct_kind(b, rng, params, cfg, level, kind):
                     cases.append([lab, c[0]])
                     labels.append(lab)
                     continue
-            top = _private_chain(b, rng, rng.choice([1, 1, 2, 3]), cfg, level, shared_priv)
+            top = _private_chain(b, rng, rng.choice(cfg.get('case_depths', [1, 1, 2, 3])), cfg, level, shared_priv)
             if shared and rng.random() < 0.5:
                 b.public.append(top)
             cases.append([lab, top])
@@ -772,7 +772,7 @@ def _add_construct_kind(b, rng, params, cfg, level, kind):
                 if c:
                     cands.append(c[0])
                     continue
-            top = _private_chain(b, rng, rng.choice([1, 2, 2, 3, 4]), cfg, level, shared_priv)
+            top = _private_chain(b, rng, rng.choice(cfg.get('cand_depths', [1, 2, 2, 3, 4])), cfg, level, shared_priv)
             if shared and rng.random() < 0.4:
                 b.public.append(top)
             cands.append(top)
@@ -943,7 +943,7 @@ CFG = {
     # with labels without a case and failures at the innermost level
     'nest3': {'name': 'nest3', 'constructs': ['switch', 'oneof'], 'shared': False, 'p_nest': 0.75, 'max_nest': 3,
               'public_deciders': True, 'p_read_decider': 0.1, 'unknown_label': True, 'force_small': True,
-              'p_construct_small': 0.7, 'p_shared_prefix': 0.2},
+              'p_construct_small': 0.7, 'p_shared_prefix': 0.2, 'case_depths': [2, 3, 3], 'cand_depths': [2, 3, 3, 4]},
     'mix_shared': {'name': 'mix_shared', 'constructs': ['switch', 'oneof'], 'shared': True, 'p_nest': 0.25, 'max_nest': 2,
                    'public_deciders': True, 'p_read_decider': 0.15, 'unknown_label': True},
     'switch_oneof': {'name': 'switch_oneof', 'constructs': ['switch', 'oneof'], 'shared': False, 'p_nest': 0.3,
